@@ -186,6 +186,19 @@ def _ser_scale_episodes(g):
             g.emit("rd %s %s %s reuse" % (y, r.choice(ENTRIES), x))
             g.emit("card %s" % y)
             g.count("ser:grown-receiver")
+    # serializations of 64 KiB and more whose length takes every residue mod 3 (text encodings pad the last group): every writer must agree
+    # with ToBytes, every entry point reads them back
+    for extra in (0, 1, 2, 3, 4):
+        x = g.fresh("b64")
+        g.emit("new %s" % x)
+        for k in range(8 + extra % 2):
+            g.emit("addstride %s %d 2 5000" % (x, k * 65536 + 1))
+        if extra:
+            g.emit("addmany %s %s" % (x, " ".join(str(40 * 65536 + 7 * i) for i in range(extra))))
+        g.emit("ser %s" % x)
+        for e in ("base64", "readfrom", "unmarshal"):
+            g.emit("rd %s %s %s" % (g.fresh(), e, x))
+        g.count("ser:64KiB-length-mod-3")
     # run chunks around the largest run count the library keeps as runs (2+4*runs < 8224: up to 2055 runs), alone and beside other
     # chunks, through every entry point and into a used receiver
     for n in (2040, 2047, 2048, 2049, 2050, 2053, 2055, 2056):
